@@ -310,6 +310,101 @@ theorem C01_block_of_lines (cfg : Cfg) (S Rp : List Str) (hp : cfg.pos = false) 
   simp only [finishState, hpd, hc, Bool.false_eq_true, if_false, hd]
   simp [initState, hp, hc]
 
+/-! ### key/value blocks (METADATA, VALIDATION, VALUES, CONNECTIONOPTIONS) -/
+
+/-- what the `string_pair` call-back hands on for the line `"key" "value"` the printer writes -/
+def pairItem (q : Char) (ty : Str) (kv : Str × Str) : R :=
+  .seq false [.tok (lexTok ty (addQuotes q kv.1)), .tok (lexTok ty (addQuotes q kv.2))]
+
+theorem pairKV_printed (q : Char) (hq : q = '"' ∨ q = '\'') (ty : Str) (kv : Str × Str)
+    (hk : underscored (lower kv.1) = false) :
+    pairKV (pairItem q ty kv) = .ok (lower kv.1, .str kv.2) := by
+  have h1 : cleanString (addQuotes q kv.1) = kv.1 := C02_quotes_outer_only q hq kv.1
+  have h2 : cleanString (addQuotes q kv.2) = kv.2 := C02_quotes_outer_only q hq kv.2
+  simp [pairKV, pairItem, tokOf, strVal, lexTok, h1, h2, hk, bind, Except.bind, pure, Except.pure]
+
+theorem kvPairs_printed (q : Char) (hq : q = '"' ∨ q = '\'') (ty : Str) :
+    (d : List (Str × Str)) → (∀ kv ∈ d, underscored (lower kv.1) = false) →
+    kvPairs (d.map (pairItem q ty)) = .ok (d.map fun kv => (lower kv.1, J.str kv.2))
+  | [], _ => rfl
+  | kv :: r, h => by
+    simp only [List.map_cons, kvPairs, pairKV_printed q hq ty kv (h kv (by simp)),
+      kvPairs_printed q hq ty r (fun x hx => h x (by simp [hx]))]
+
+/-- distinct lower-case keys: the dictionary is the list of pairs, in order -/
+theorem kvDict_distinct : (pairs : List (Str × J)) → (∀ kv ∈ pairs, lower kv.1 = kv.1) → (pairs.map Prod.fst).Nodup →
+    ∀ (acc : Fields), (∀ kv ∈ pairs, kv.1 ∉ keys acc) →
+    pairs.foldl (fun d kv => setKey (lower kv.1) kv.2 d) acc = acc ++ pairs
+  | [], _, _, acc, _ => by simp
+  | (k, v) :: r, hl, hnd, acc, hfresh => by
+    simp only [List.map_cons, List.nodup_cons] at hnd
+    have hk : lower k = k := hl (k, v) (by simp)
+    simp only [List.foldl_cons, hk, setKey_of_not_mem k v acc (hfresh (k, v) (by simp))]
+    rw [kvDict_distinct r (fun x hx => hl x (by simp [hx])) hnd.2 (acc ++ [(k, v)]) (by
+      intro kv hkv
+      simp only [keys_append, keys_cons, keys_nil, List.mem_append, List.mem_singleton, not_or]
+      refine ⟨hfresh kv (by simp [hkv]), ?_⟩
+      intro e
+      exact hnd.1 (by rw [← e]; exact List.mem_map_of_mem (f := Prod.fst) hkv))]
+    simp
+
+/-- a monadic map that returns every element unchanged -/
+theorem mapM_id_of_all (f : R → Res R) : (xs : List R) → (∀ x ∈ xs, f x = .ok x) → xs.mapM f = .ok xs
+  | [], _ => rfl
+  | x :: r, h => by
+    simp only [List.mapM_cons, h x (by simp), mapM_id_of_all f r (fun y hy => h y (by simp [hy])), bind, Except.bind, pure,
+      Except.pure]
+
+/-- `check_composite_tokens` on `KEY <pairs> END` -/
+theorem checkComposite_pairs (q : Char) (ty name kwText : Str) (hname : lower kwText = name) (d : List (Str × Str)) :
+    checkComposite name (.tok (lexTok ty kwText) :: (d.map (pairItem q ty) ++ [.tok (lexTok ty s%"END")])) =
+      .ok (lexTok ty kwText, d.map (pairItem q ty)) := by
+  unfold checkComposite
+  have hlen : ¬ (R.tok (lexTok ty kwText) :: (d.map (pairItem q ty) ++ [R.tok (lexTok ty s%"END")])).length < 2 := by
+    simp
+  have hidx : (R.tok (lexTok ty kwText) :: (d.map (pairItem q ty) ++ [R.tok (lexTok ty s%"END")])).length - 1 =
+      (d.map (pairItem q ty)).length + 1 := by simp
+  have hlast : (R.tok (lexTok ty kwText) :: (d.map (pairItem q ty) ++ [R.tok (lexTok ty s%"END")]))[(d.map (pairItem q ty)).length + 1]? =
+      some (R.tok (lexTok ty s%"END")) := by
+    rw [List.getElem?_cons_succ, List.getElem?_append_right (Nat.le_refl _)]
+    simp
+  have hend : lower s%"END" = s%"end" := by decide
+  have hbody : ((R.tok (lexTok ty kwText) :: (d.map (pairItem q ty) ++ [R.tok (lexTok ty s%"END")])).drop 1).dropLast =
+      d.map (pairItem q ty) := by
+    show ((d.map (pairItem q ty) ++ [R.tok (lexTok ty s%"END")])).dropLast = _
+    exact List.dropLast_concat
+  simp only [hlen, if_false, nth, List.getElem?_cons_zero, tokOf, valLower, bind, Except.bind, pure, Except.pure, hidx, hlast,
+    hbody]
+  rw [mapM_id_of_all _ _ (by intro x hx; obtain ⟨kv, _, rfl⟩ := List.mem_map.mp hx; rfl)]
+  simp [lexTok, hname, hend]
+
+/-- **C01_kv_block** — a METADATA / VALIDATION / VALUES / CONNECTIONOPTIONS block as the printer writes it (every key and
+every value between the output quotes), for ANY number of pairs with distinct lower-case keys and ANY value strings: the
+block read back is exactly the pairs, in order, values untouched, followed by `__type__` (a key/value block gets its type tag
+last) -/
+theorem C01_kv_block (cfg : Cfg) (hp : cfg.pos = false) (q : Char) (hq : q = '"' ∨ q = '\'') (ty name kwText : Str)
+    (hname : lower kwText = name) (d : List (Str × Str))
+    (hlow : ∀ kv ∈ d, lower kv.1 = kv.1) (hu : ∀ kv ∈ d, underscored kv.1 = false) (hnd : (d.map Prod.fst).Nodup)
+    (hty : ∀ kv ∈ d, kv.1 ≠ s%"__type__") :
+    valuePairs cfg name (.tok (lexTok ty kwText) :: (d.map (pairItem q ty) ++ [.tok (lexTok ty s%"END")])) =
+      .ok (.cdict ((d.map fun kv => (kv.1, J.str kv.2)) ++ [(s%"__type__", .str name)])) := by
+  have hkv := kvPairs_printed q hq ty d (fun kv h => by rw [hlow kv h]; exact hu kv h)
+  have hpairs : (d.map fun kv => (lower kv.1, J.str kv.2)) = d.map fun kv => (kv.1, J.str kv.2) := by
+    apply List.map_congr_left
+    intro kv h
+    rw [hlow kv h]
+  have hd := kvDict_distinct (d.map fun kv => (kv.1, J.str kv.2))
+    (by intro kv h; obtain ⟨x, hx, rfl⟩ := List.mem_map.mp h; exact hlow x hx)
+    (by simpa [List.map_map, Function.comp_def] using hnd) [] (by simp)
+  have hnt : s%"__type__" ∉ keys (d.map fun kv => (kv.1, J.str kv.2)) := by
+    simp only [keys, List.map_map, Function.comp_def, List.mem_map, not_exists, not_and]
+    intro x hx e
+    exact hty x hx e
+  unfold valuePairs
+  rw [checkComposite_pairs q ty name kwText hname d]
+  simp only [valLower, lexTok, hname, hkv, hp, Bool.false_eq_true, if_false, hpairs, kvDict, hd, List.nil_append]
+  rw [setKey_of_not_mem _ _ _ hnt]
+
 /-- the hypotheses are met: NAME "a b" in a LAYER, any spelling of the keyword -/
 example : lower s%"NaMe" = s%"name" ∧ underscored s%"name" = false ∧ ('"' ∉ s%"a b") := by decide
 
